@@ -610,7 +610,8 @@ let run_s3 (path : string) =
       let q = node_queues n in
       setn ();
       Printf.printf "%s | %s | %s\n" res inb q;
-      Printf.printf "D %s %s\n" (node_dump false !x.sn_node) (stub_digest !x.sn_stub)) c.ops;
+      if !x.sn_poisoned then Printf.printf "D POISONED %s\n" (stub_digest !x.sn_stub)
+      else Printf.printf "D %s %s\n" (node_dump false !x.sn_node) (stub_digest !x.sn_stub)) c.ops;
     print_string "E\n") (read_cases path)
 
 (* ---------- cluster ---------- *)
